@@ -9,11 +9,17 @@
   Hence every decoder written against the source interface (JSON reader, CBOR/MessagePack/UBJSON/
   BSON parsers) sees the same bytes from a stream with any internal buffer size as from a buffer.
 
-  NOT proved (decided per case on the real code by the `jt deliver` stream: every 2-way split, every
-  uniform chunk size 1..7, random splits, readers, stream buffers 1/2/3/5/16, iterator source, pull
-  cursor; outcomes must coincide): chunk-independence of the JSON parser's own suspend/resume logic
-  (`json_parser.hpp` "Buffer exhausted" branches) and the cursor/reader glue. D1, D17, D23 were
-  found there and repaired; D21 is recorded.
+  Also proved here (Model: JV.Model.JsonParser = json_parser.hpp as it behaves when it is handed one character per update(), so that every
+  "Buffer exhausted" save/resume branch is a state of the model): however a text is cut into pieces, feeding the pieces and then signalling
+  end of input gives the outcome of the whole text - same events, same error code, same final state (`json_chunk_independent`,
+  `json_split_independent`), and nothing after an error is looked at (`json_error_is_final`). The REAL parser is tied to that model under every
+  chunking by the `parser-model-pieces` stream: after every delivered piece its suspended state (parse_state, number/string sub-state, level,
+  state stack, buffer, code points - guarded hook `verif_inspect`) must be the model's state after the same prefix, and its outcome the
+  model's; so the look-ahead fast paths and the resume code are exactly what the tie exercises. D1, D17, D23 were found there and repaired.
+
+  NOT proved (decided per case on the real code by the `jt deliver` stream: every 2-way split, every uniform chunk size 1..7, random splits,
+  readers, stream buffers 1/2/3/5/16, iterator source, pull cursor; outcomes must coincide): the cursor / reader glue around the parser, CSV
+  chunking and the binary decoders under chunking. D21 is recorded.
 -/
 import JV.Proofs.StreamSource
 import JV.Proofs.JsonParser
